@@ -54,6 +54,7 @@ PROPS['C10'] = dict(
   explanation='Bounded symbolic execution of the real field classes (clang IR of the headers in /repo): operands are symbolic 32-bit machine integers (full range for conversion, addition, subtraction, comparison; reduced range for the shift-and-add multiplier and the inverses), the characteristic is concrete per unit; z3 proves on every path that the result equals 64-bit exact arithmetic reduced modulo the characteristic / the CRT characterisation of partial inverses.',
   bounds=dict(quick='Z_p element classes p in {2,3,5,7,13}, shared p in {3,7}, Z_2, small multi-fields [2,3],[2,5],[3,5]; operator classes and cohomology Field_Zp p<=13; all 32-bit operands for +,-,==,conversion; multiplier operand < modulus', thorough='+ p in {31,251}, ranges [2,7],[3,7],[5,13]'),
   outside=['GMP-backed Multi_field classes and the cohomology Multi_field (libgmp is machine code, not encodable)', 'functional equivalence of _multiply for characteristics beyond the listed ones', 'primes above 251'],
+  technique='bounded symbolic execution (vpsx + z3) of the field classes with windowed / enumerated operands, and CBMC (cadical / kissat / cvc5 bv-as-int race) on the clang-IR-to-C translation of the arithmetic kernels with fully symbolic 32-bit operands; translation validated against the real code each run; counterexamples replayed natively',
   units=_c10)
 
 # ------------------------------------------------------------------------------------------------ C01
